@@ -31,6 +31,206 @@ fn walk_result(program: &asg::Program, table: &oq3_semantics::symbols::SymbolTab
     (program.stmts().len(), n_ids)
 }
 
+// ---------------------------------------------------------------- trigger attribution
+//
+// Three lenient spots of the lexer/parser let text through that no later stage can translate, and
+// the analysis then panics at whatever `unwrap()` happens to meet it: the set of panic sites of one
+// such trigger is open-ended.  A panic is attributed to a trigger only by *repair*: the trigger is
+// rewritten away (nothing else changes) and the analysis is run again; if the panic at that site
+// is gone, the trigger was necessary for it and the cell becomes `trigger:<class>/<site>`.
+// Otherwise the cell is the bare panic site.  A different panic of the repaired program is reported
+// as a violation of its own.
+
+fn scan_number(text: &str, float: bool) -> usize {
+    let b = text.as_bytes();
+    let mut i = 0;
+    if !float && b.len() >= 2 && b[0] == b'0' && matches!(b[1], b'b' | b'B' | b'o' | b'O' | b'x' | b'X') {
+        let radix = match b[1] {
+            b'b' | b'B' => 2,
+            b'o' | b'O' => 8,
+            _ => 16,
+        };
+        i = 2;
+        while i < b.len() && ((b[i] as char).is_digit(radix) || b[i] == b'_') {
+            i += 1;
+        }
+        // a prefix without any valid digit is no number at all
+        return if b[2..i].iter().any(|c| *c != b'_') { i } else { 0 };
+    }
+    while i < b.len() && (b[i].is_ascii_digit() || b[i] == b'_') {
+        i += 1;
+    }
+    if float {
+        if i < b.len() && b[i] == b'.' {
+            i += 1;
+            while i < b.len() && (b[i].is_ascii_digit() || b[i] == b'_') {
+                i += 1;
+            }
+        }
+        if i < b.len() && (b[i] == b'e' || b[i] == b'E') {
+            let mut j = i + 1;
+            if j < b.len() && (b[j] == b'+' || b[j] == b'-') {
+                j += 1;
+            }
+            let d0 = j;
+            while j < b.len() && (b[j].is_ascii_digit() || b[j] == b'_') {
+                j += 1;
+            }
+            if j > d0 {
+                i = j;
+            }
+        }
+    }
+    i
+}
+
+fn int_overflows_u128(text: &str) -> bool {
+    let t = text.replace('_', "");
+    let (radix, digits) = match t.get(..2) {
+        Some("0b") | Some("0B") => (2, &t[2..]),
+        Some("0o") | Some("0O") => (8, &t[2..]),
+        Some("0x") | Some("0X") => (16, &t[2..]),
+        _ => (10, t.as_str()),
+    };
+    // judge the longest valid prefix (`0o7778` is `0o777` with a glued suffix)
+    let digits: String = digits.chars().take_while(|c| c.is_digit(radix)).collect();
+    !digits.is_empty() && u128::from_str_radix(&digits, radix).is_err()
+}
+
+/// The source with every occurrence of the trigger rewritten away, or None when it has none.
+fn repair(s: &str, class: &str) -> Option<String> {
+    use oq3_syntax::ast::AstNode;
+    use oq3_syntax::SyntaxKind::{FLOAT_NUMBER, INT_NUMBER, TUPLE_EXPR};
+    let parse = SourceFile::parse(s);
+    let root = parse.tree();
+    let mut edits: Vec<(usize, usize, String)> = Vec::new();
+    for el in root.syntax().descendants_with_tokens() {
+        let r = el.text_range();
+        let (a, b) = (usize::from(r.start()), usize::from(r.end()));
+        match class {
+            "empty-parentheses" => {
+                if let Some(n) = el.as_node() {
+                    if n.kind() == TUPLE_EXPR && n.children().count() == 0 {
+                        edits.push((a, b, "(0)".to_string()));
+                    }
+                }
+            }
+            "block-in-parentheses" => {
+                // `while ({}) …`, `x = ({});`: a block where an expression is expected
+                if let Some(n) = el.as_node() {
+                    if n.kind() == oq3_syntax::SyntaxKind::BLOCK_EXPR {
+                        let mut prev = n.prev_sibling_or_token();
+                        while let Some(p) = &prev {
+                            if p.kind().is_trivia() {
+                                prev = p.prev_sibling_or_token();
+                            } else {
+                                break;
+                            }
+                        }
+                        if prev.map(|p| p.kind() == oq3_syntax::SyntaxKind::L_PAREN).unwrap_or(false) {
+                            edits.push((a, b, "0".to_string()));
+                        }
+                    }
+                }
+            }
+            "numeric-literal-suffix" => {
+                if let Some(t) = el.as_token() {
+                    if t.kind() == FLOAT_NUMBER || t.kind() == INT_NUMBER {
+                        let n = scan_number(t.text(), t.kind() == FLOAT_NUMBER);
+                        if n < t.text().len() {
+                            edits.push((a, b, if n == 0 { "1".to_string() } else { t.text()[..n].to_string() }));
+                        }
+                    }
+                }
+            }
+            "integer-literal-beyond-u128" => {
+                if let Some(t) = el.as_token() {
+                    if t.kind() == INT_NUMBER && int_overflows_u128(t.text()) {
+                        edits.push((a, b, "1".to_string()));
+                    }
+                }
+            }
+            _ => {}
+        }
+    }
+    if edits.is_empty() {
+        return None;
+    }
+    // keep outermost edits only (a block in parentheses may contain another one)
+    edits.sort_by(|x, y| x.0.cmp(&y.0).then(y.1.cmp(&x.1)));
+    let mut outer: Vec<(usize, usize, String)> = Vec::new();
+    for e in edits {
+        if outer.last().map(|l| e.0 >= l.1).unwrap_or(true) {
+            outer.push(e);
+        }
+    }
+    let mut out = s.to_string();
+    for (a, b, t) in outer.into_iter().rev() {
+        out.replace_range(a..b, &t);
+    }
+    Some(out)
+}
+
+pub const TRIGGERS: &[&str] = &["empty-parentheses", "block-in-parentheses", "numeric-literal-suffix", "integer-literal-beyond-u128"];
+
+/// Returns the cell for a panic at `site` on `s`, and a residual panic of the repaired program.
+fn attribute_trigger(s: &str, site: &str) -> (String, Option<(String, String, String)>) {
+    for class in TRIGGERS {
+        let Ok(Some(rep)) = guard(|| repair(s, class)) else { continue };
+        if rep == s {
+            continue;
+        }
+        let clean = guard(|| {
+            let p = SourceFile::parse_check_lex(&rep);
+            p.have_parse() && p.errors().is_empty()
+        });
+        if !matches!(clean, Ok(true)) {
+            continue;
+        }
+        let r = guard(|| {
+            let res = parse_source_string(&rep, Some("c03.qasm"));
+            let _ = walk_result(res.program(), res.symbol_table());
+        });
+        match r {
+            Ok(()) => return (format!("trigger:{class}/{site}"), None),
+            Err(p2) if p2.site() != site => {
+                // attribute the residual panic in turn (it may hang on another trigger)
+                let (rcell, _) = attribute_trigger(&rep, &p2.site());
+                return (format!("trigger:{class}/{site}"), Some((rep, rcell, format!("{}:{} {}", p2.file, p2.line, p2.msg))));
+            }
+            Err(_) => {}
+        }
+    }
+    // several triggers at once: rewrite them away one class after the other
+    let mut cur = s.to_string();
+    for class in TRIGGERS {
+        let Ok(Some(rep)) = guard(|| repair(&cur, class)) else { continue };
+        if rep == cur {
+            continue;
+        }
+        cur = rep;
+        let clean = guard(|| {
+            let p = SourceFile::parse_check_lex(&cur);
+            p.have_parse() && p.errors().is_empty()
+        });
+        if !matches!(clean, Ok(true)) {
+            continue;
+        }
+        let r = guard(|| {
+            let res = parse_source_string(&cur, Some("c03.qasm"));
+            let _ = walk_result(res.program(), res.symbol_table());
+        });
+        match r {
+            Ok(()) => return (format!("trigger:{class}/{site}"), None),
+            Err(p2) if p2.site() != site => {
+                return (format!("trigger:{class}/{site}"), Some((cur.clone(), p2.site(), format!("{}:{} {}", p2.file, p2.line, p2.msg))));
+            }
+            Err(_) => {}
+        }
+    }
+    (site.to_string(), None)
+}
+
 pub fn check_source(s: &str, obs: &mut Obs, require_clean: bool) {
     obs.fp.u64(0xC03);
     // precondition: parses without diagnostics
@@ -64,7 +264,13 @@ pub fn check_source(s: &str, obs: &mut Obs, require_clean: bool) {
     });
     match r {
         Err(p) => {
-            obs.violate(p.site(), format!("{s:?}: {}:{} {}", p.file, p.line, p.msg));
+            let site = p.site();
+            let (cell, residual) = attribute_trigger(s, &site);
+            obs.violate(cell, format!("{s:?}: {}:{} {}", p.file, p.line, p.msg));
+            if let Some((rep, rsite, rdetail)) = residual {
+                // the repaired program still panics, elsewhere: its own violation, never masked
+                obs.violate(rsite, format!("{rep:?}: {rdetail}"));
+            }
             obs.done(true);
         }
         Ok((depth, nst, nids, nerr, kinds, synerr)) => {
